@@ -28,6 +28,7 @@ PROP = 'C10'
 MIUS = (128, 129, 130, 131, 132, 133, 135, 248, 1024, 2175)
 SNL_COUNTS = (1, 2, 31, 32, 33, 34, 40, 64)
 SITE = 'nfc.llcp.llc.LogicalLinkController.collect'
+SD_SITE = 'nfc.llcp.llc.ServiceDiscovery.dequeue'
 
 
 class World(object):
@@ -76,7 +77,7 @@ class Spec(object):
                     bfs.state_digest(self, self._pristine) != self._pristine_dg:
                 raise bfs.Unsound("fresh initial world differs from pristine")
             return w
-        return copy.deepcopy(self._pristine)
+        return bfs.snapshot(self._pristine)
 
     # -- initial state: real activation, two real connections ----------------
     def build(self):
@@ -251,10 +252,9 @@ class Spec(object):
 
     # -- the per-state evaluation: pump a copy until A is drained ---------------
     def check_state(self, w, trace=None):
-        import copy
         if w.dead:
             return []
-        w = copy.deepcopy(w)
+        w = bfs.snapshot(w)
         viol = []
         obs = Observer(self, w, viol, trace)
         prev, prev_dg = None, None
@@ -360,8 +360,11 @@ class Observer(object):
                 k, p = culprit
                 cls = 'agf|added=%s|budget%s' % (
                     self.kind(p), '<0' if budget < 0 else '>=0')
+            # call site: the SDRES batch loop, or the aggregation loop
+            site = SD_SITE if cls.endswith('SNL+sdres') or \
+                cls.endswith('SNL+sdres|budget>=0') else SITE
             self.viol.append((
-                'C10|frame>linkMIU|%s|%s' % (cls, SITE),
+                'C10|frame>linkMIU|%s|%s' % (cls, site),
                 dict(base, over_by=info - M)))
         # 2. payloads against the receiver's MIU
         for p in leaves:
@@ -418,16 +421,16 @@ def configs(tier):
     """(cfg, depth) list.  cfg = (M, agf, delta, alphabet)."""
     out = []
     if tier == 'quick':
-        d_on, d_off = (0, 7, 8, 9, 10, 11), (0,)
-        full_depth, core_depth, core_d = 2, 3, (0, 8, 10)
+        d_on, d_off = (0, 7, 8, 10), (0,)
+        full_depth, core_depth, core_on, core_off = 2, 3, (8,), ()
     else:
-        d_on, d_off = tuple(range(0, 14)), (0, 8)
-        full_depth, core_depth, core_d = 3, 4, (0, 7, 8, 10)
+        d_on, d_off = (0, 1, 6, 7, 8, 9, 10, 11, 12, 13), (0, 8)
+        full_depth, core_depth, core_on, core_off = 3, 4, (8, 10), (0,)
     for M in MIUS:
         for agf in (True, False):
             for delta in (d_on if agf else d_off):
                 out.append(((M, agf, delta, 'full'), full_depth))
-            for delta in (core_d if agf else (0,)):
+            for delta in (core_on if agf else core_off):
                 out.append(((M, agf, delta, 'core'), core_depth))
     return out
 
